@@ -20,7 +20,8 @@ def seeds():
                                                   "<br>".join(c.replace('|', '/') for c in m['caught_by'])))
     out.append("")
     out.append("%d seeded breakages confirmed; %d were missed by the check as first built and are caught after strengthening." % (
-        len(rows), sum(1 for m in rows if any('MISSED' in c for c in m['caught_by']))))
+        len(rows), sum(1 for m in rows if any('MISSED' in c for c in m['caught_by'])))
+               + " %d not caught (see its row)." % sum(1 for m in rows if any('NOT CAUGHT' in c for c in m['caught_by'])))
     return "\n".join(out)
 def ledger():
     k = json.load(open(V + '/known_findings.json'))['findings']
